@@ -237,6 +237,15 @@ def _parse_rules(c, t, toks, names, pic, oks):
             hi = max((e[4]['month'][1][1] for e in evs if e[4].get('month')), default=0)
             c.rec('C05', f"parse {t} [{pic}]: with a day field the month comes from the day of the year (all of 1..=12 reachable)", lo <= 1 and hi >= 12,
                   f"months reaching the assembly: {lo}..{hi}")
+    # a meridian code: the reader looks for the texts the writer emits for that spelling (dotted or plain)
+    if kinds == ['AmPm']:
+        dotted = 'Dot' in str(toks[0][2])
+        lits = {bytes(e[1]).upper() for e in c.I.events if e[0] == 'cmplit'}
+        want = {b'A.M.', b'P.M.'} if dotted else {b'AM', b'PM'}
+        mer = lits & {b'A.M.', b'P.M.', b'AM', b'PM'}
+        if mer:         # (an implementation that matches the text by patterns compares with no literal: the rule does not apply)
+            c.rec('C05', f"parse {t} [{pic}]: the meridian text is matched in the spelling of the picture ({'A.M. / P.M.' if dotted else 'AM / PM'}, any letter case)",
+                  want <= mer, f"literals the reader compares the input with: {sorted(x.decode('latin1') for x in mer)}")
     # 12-hour field: only 1..=12 reach the assembly (0 and 13.. are rejected, empty input defaults to 12)
     if kinds == ['Hour12']:
         for e in evs:
